@@ -67,7 +67,12 @@ class ParseUserData:
             if userDataParserMod in userDataParsers:
                 cls = userDataParsers[userDataParserMod]
             else:
-                cls = importlib.import_module(userDataParserMod)
+                try:
+                    cls = importlib.import_module(userDataParserMod)
+                except ImportError:
+                    # No print for informational purposes, this is
+                    # encountered often, e.g. PHYP
+                    cls = None
                 userDataParsers[userDataParserMod] = cls
             if self.data:
                 mv = memoryview(self.data)
@@ -76,12 +81,6 @@ class ParseUserData:
                     return json.dumps(hexdump(mv))
                 else:
                     return cls.parseUDToJson(self.subType, self.version, mv)
-        except ImportError:
-            userDataParsers[userDataParserMod] = None
-            # No print for informational purposes, this is encountered often, e.g. PHYP
-            if self.data:
-                mv = memoryview(self.data)
-                return json.dumps(hexdump(mv))
         except Exception as e:
             d = dict()
             # in case we do NOT have data, dump the Error at a minimum
